@@ -201,3 +201,143 @@ func verifKeys(kv []verifKV) (out []string) {
 	}
 	return
 }
+
+// ===== second runner in the same file (shares the helpers above) =====
+// Bounded stand-in for C10 (labelled: NOT a proof): "what a reader observes as of height v never changes once v is
+// committed, regardless of later writes, deletes or a rollback to a height >= v". Random histories of 3..6 blocks
+// over a pool of leaf keys (no key is a prefix of another), values may be EMPTY, keys are overwritten and deleted
+// across blocks. After the history: every committed version is opened read-only and compared (forward and reverse
+// iteration, point reads) with the model at that version; then the store is rolled back to a random version and
+// must show exactly the model at that version, and keep doing so after one more block is written on top.
+
+func verifC10View(r lib.RStoreI, pool [][]byte) (fwd, rev []verifKV, gets map[string]string, err error) {
+	fwd, e1 := verifC10Collect(r.Iterator(nil))
+	rev, e2 := verifC10Collect(r.RevIterator(nil))
+	if e1 != nil {
+		return nil, nil, nil, e1
+	}
+	if e2 != nil {
+		return nil, nil, nil, e2
+	}
+	gets = map[string]string{}
+	for _, k := range pool {
+		v, e := r.Get(k)
+		if e != nil {
+			return nil, nil, nil, e
+		}
+		if v != nil {
+			gets[string(k)] = string(v)
+		}
+	}
+	return
+}
+
+func TestVerifBoundedC10History(t *testing.T) {
+	seed, _ := strconv.ParseInt(os.Getenv("VERIF_SEED"), 10, 64)
+	histories, _ := strconv.Atoi(os.Getenv("VERIF_BOUND_HISTORIES"))
+	if histories == 0 {
+		histories = 25
+	}
+	rng := rand.New(rand.NewSource(seed + 13))
+	leaves, _ := verifC10Pool()
+	evals, nontrivial, viol := 0, 0, 0
+	shown := map[string]int{}
+	for h := 0; h < histories; h++ {
+		st, _, cleanup := testStore(t)
+		models := []map[string]string{{}} // models[v] = state as of version v
+		cur := map[string]string{}
+		var hist []string
+		block := func() {
+			for i, n := 0, 1+rng.Intn(6); i < n; i++ {
+				k := leaves[rng.Intn(len(leaves))]
+				switch rng.Intn(5) {
+				case 0:
+					st.Delete(k)
+					delete(cur, string(k))
+					hist = append(hist, fmt.Sprintf("v%d del %x", len(models), k))
+				case 1:
+					st.Set(k, []byte{})
+					cur[string(k)] = ""
+					hist = append(hist, fmt.Sprintf("v%d set %x=<empty>", len(models), k))
+				default:
+					v := fmt.Sprintf("h%d.%d", h, rng.Intn(1000))
+					st.Set(k, []byte(v))
+					cur[string(k)] = v
+					hist = append(hist, fmt.Sprintf("v%d set %x=%s", len(models), k, v))
+				}
+			}
+			if _, e := st.Commit(); e != nil {
+				t.Fatal(e)
+			}
+			m := map[string]string{}
+			for k, v := range cur {
+				m[k] = v
+			}
+			models = append(models, m)
+		}
+		for b, nb := 0, 3+rng.Intn(4); b < nb; b++ {
+			block()
+		}
+		compare := func(kind, where string, r lib.RStoreI, m map[string]string) {
+			fwd, rev, gets, err := verifC10View(r, leaves)
+			evals++
+			if len(m) > 1 {
+				nontrivial++
+			}
+			ok := err == nil && verifC10Same(fwd, verifC10Expect(m, "", false)) && verifC10Same(rev, verifC10Expect(m, "", true))
+			if ok {
+				// point reads: present keys read their value (an empty value may read as empty or nil), absent keys read nil
+				for _, k := range leaves {
+					want, present := m[string(k)]
+					got, has := gets[string(k)]
+					if (present && want != "" && (!has || got != want)) || (!present && has) {
+						ok = false
+					}
+				}
+			}
+			if !ok {
+				viol++
+				if shown[kind]++; shown[kind] <= 3 {
+					fmt.Printf("BOUNDED-VIOLATION kind=%s %s: observed %d forward / %d reverse entries, model has %d (err %v)\n", kind, where, len(fwd), len(rev), len(m), err)
+					fmt.Printf("BOUNDED-HISTORY %s\n", strings.Join(hist, "; "))
+				}
+			}
+		}
+		top := len(models) - 1
+		for v := 1; v <= top; v++ {
+			ro, e := st.NewReadOnly(uint64(v))
+			if e != nil {
+				t.Fatal(e)
+			}
+			compare("historical", fmt.Sprintf("read-only view at version %d of %d", v, top), ro, models[v])
+			ro.Discard()
+		}
+		target := 1 + rng.Intn(top)
+		if e := st.Rollback(uint64(target)); e != nil {
+			viol++
+			fmt.Printf("BOUNDED-VIOLATION kind=rollback Rollback(%d) of %d failed: %v\n", target, top, e)
+		} else {
+			hist = append(hist, fmt.Sprintf("rollback to v%d", target))
+			compare("rollback", fmt.Sprintf("store after Rollback(%d) from %d", target, top), st, models[target])
+			// history goes on from the rolled-back state
+			models = models[:target+1]
+			cur = map[string]string{}
+			for k, v := range models[target] {
+				cur[k] = v
+			}
+			block()
+			compare("rollback", fmt.Sprintf("store one block after Rollback(%d)", target), st, models[len(models)-1])
+			for v := 1; v < len(models); v++ {
+				ro, e := st.NewReadOnly(uint64(v))
+				if e != nil {
+					t.Fatal(e)
+				}
+				compare("historical", fmt.Sprintf("read-only view at version %d after rollback", v), ro, models[v])
+				ro.Discard()
+			}
+		}
+		cleanup()
+	}
+	fmt.Printf("BOUNDED-SAMPLE %d histories of 3..6 blocks over %d leaf keys (empty values, overwrites, deletes), every version re-read, one rollback each\n", histories, len(leaves))
+	fmt.Printf("BOUNDED-SUMMARY name=c10_history evaluations=%d distinct_nontrivial=%d violations=%d bound=histories:%d,blocks:3..6(+1),keys:%d\n", evals, nontrivial, viol, histories, len(leaves))
+}
